@@ -9,11 +9,11 @@ namespace Ovni.Ovnisort
 def sortFrom (sortFn : List Ev → List Ev) (first : Nat) (buf : List Ev) : List Ev :=
   buf.take first ++ sortFn (buf.drop first)
 
-theorem exec_shape (sortFn : List Ev → List Ev) (buf : List Ev) (r : Ring) (bad0 : Nat) :
-    ((executeSortPlan sortFn buf r bad0).2.1 = buf ∧ (executeSortPlan sortFn buf r bad0).2.2.2 = none) ∨
-    (∃ first, (executeSortPlan sortFn buf r bad0).2.1 = sortFrom sortFn first buf ∧
-      (executeSortPlan sortFn buf r bad0).2.2.2 = some (first, buf.length)) := by
-  unfold executeSortPlan sortFrom
+theorem sortRegion_shape (sortFn : List Ev → List Ev) (buf : List Ev) (r : Ring) (bad0 : Nat) :
+    ((sortRegion sortFn buf r bad0).2.1 = buf ∧ (sortRegion sortFn buf r bad0).2.2.2 = none) ∨
+    (∃ first, (sortRegion sortFn buf r bad0).2.1 = sortFrom sortFn first buf ∧
+      (sortRegion sortFn buf r bad0).2.2.2 = some (first, buf.length)) := by
+  unfold sortRegion sortFrom
   simp only
   split
   · exact Or.inl ⟨rfl, rfl⟩
@@ -26,6 +26,15 @@ theorem exec_shape (sortFn : List Ev → List Ev) (buf : List Ev) (r : Ring) (ba
       · split
         · exact Or.inr ⟨_, rfl, rfl⟩
         · exact Or.inr ⟨_, rfl, rfl⟩
+
+theorem exec_shape (sortFn : List Ev → List Ev) (buf : List Ev) (r : Ring) (opn bad0 : Nat) :
+    ((executeSortPlan sortFn buf r opn bad0).2.1 = buf ∧ (executeSortPlan sortFn buf r opn bad0).2.2.2 = none) ∨
+    (∃ first, (executeSortPlan sortFn buf r opn bad0).2.1 = sortFrom sortFn first buf ∧
+      (executeSortPlan sortFn buf r opn bad0).2.2.2 = some (first, buf.length)) := by
+  unfold executeSortPlan
+  split
+  · exact Or.inl ⟨rfl, rfl⟩
+  · exact sortRegion_shape sortFn buf r bad0
 
 /-- Shape of one loop iteration: the buffer `d'` before the cursor is the old
     one or one `sortFrom` of it (then the plan is logged); the iteration either
@@ -45,7 +54,7 @@ theorem wsStep_shape (sortFn : List Ev → List Ev) (s : WS) (e : Ev) :
       · exact ⟨s.done, s.plans, Or.inl ⟨rfl, rfl⟩, Or.inl ⟨_, rfl, rfl, rfl⟩⟩
     · split
       · split
-        · have hsh := exec_shape sortFn s.done s.ring s.bad0
+        · have hsh := exec_shape sortFn s.done s.ring s.opn s.bad0
           split
           · rename_i buf' r' p heq
             rw [heq] at hsh
